@@ -36,7 +36,10 @@ LEVEL_TEXT = (
     "section rejects unknown keys; for ALL configurations and terminal dictionaries: a terminal "
     "argument overrides the file, an unknown key makes parsing fail, the stored value is the typed "
     "reading of the text, the call sequence of each function is the reference API sequence, a dry "
-    "run computes nothing, every parsed simulation option reaches the Simulation constructor. "
+    "run computes nothing, every parsed simulation option reaches the Simulation constructor, a "
+    "section holding only unknown options raises the TypeError of that section (no documented "
+    "option of the section needs to be present), the API calls of a run do not depend on the "
+    "names/formats of the files. "
     "Finite tables are decided by vm_compute (bound = the regenerated tables, 57 parser entries / "
     "58 documented keys on the pinned tree); the generic statements are proved for all tables.")
 LEVEL_NOTE = (
@@ -45,7 +48,12 @@ LEVEL_NOTE = (
     "tables is compared with parse_config_file on generated files); configparser, argparse, "
     "os.path.abspath, h5py/npz/json I/O are oracles. 'Same data, misfit and gradient as the "
     "equivalent API calls' rests on correspondence: mocked call-sequence comparison plus real "
-    "end-to-end runs on a 4^3 problem compared exactly. Python's '_' digit separators and "
+    "end-to-end runs on a 4^3 problem compared exactly; that the result does not depend on the "
+    "format (h5/npz/json) of the survey and model files rests on the deterministic end-to-end "
+    "product (format x gridding values, [data] selections, layered): the objects io.load returns "
+    "are opaque to the model. The extractor accepts an unknown-key rejection only when it is "
+    "executed unconditionally within its section (fails closed otherwise). Python's '_' digit "
+    "separators and "
     "configparser interpolation ('%') are not modelled. Unknown SECTIONS are silently ignored by "
     "the implementation (observation, see docs/C18.md).")
 TECHNIQUE = ("Coq proof (vm_compute over regenerated finite tables + generic proofs about a "
@@ -234,6 +242,63 @@ def gen_parse_case(rng, T, base):
         term[rng.choice(['survey', 'output', 'save'])] = ''
     extra = kind == 'term_extra'
     return dict(kind=kind, defect=defect, text=text, term=term, extra=extra)
+
+
+# Mistyped / unknown names per section: the API name where the documented one
+# differs, plurals, names of neighbouring sections, near misses.
+UNKNOWN_NAMES = {
+    'files': ['surveys', 'modell'],
+    'simulation': ['max_worker', 'griding'],
+    'noise_opts': ['add_noises', 'std'],
+    'layered': ['methods', 'ellipse'],
+    'solver_opts': ['maxiter', 'tolerance'],
+    'data': ['source', 'whatever'],
+    'gridding_opts': ['min_width', 'cell_numbers'],
+}
+
+
+def _term0(fn='forward', **kw):
+    t = {'verbosity': 0, 'nproc': None, 'dry_run': False, 'clean': False, 'layered': None,
+         'forward': fn == 'forward', 'misfit': fn == 'misfit', 'gradient': fn == 'gradient',
+         'path': None, 'survey': None, 'model': None, 'output': None, 'save': None, 'load': None,
+         'cache': None}
+    t.update(kw)
+    return t
+
+
+def lone_unknown_cases(T, base):
+    """Deterministic: for EVERY section the parser processes, configurations in
+    which the section holds ONLY unknown / mistyped options -- (a) that section
+    alone, one unknown key; (b) two unknown keys; (c) next to well-formed
+    other sections; (d) with terminal arguments that override options of that
+    section.  The clause 'unknown options are rejected with an error' does not
+    depend on a documented option being present in the same section."""
+    entries = T['parser']['entries']
+    by_sec = {}
+    for (s, k, ty, pa) in entries:
+        by_sec.setdefault(s, []).append((k, ty))
+    secs = ['files'] + [s for s in T['parser']['section_order']]
+    rng0 = __import__('random').Random(18)            # fixed: only picks well-formed texts
+    out = []
+    for sec in secs:
+        names = UNKNOWN_NAMES.get(sec, ['another', 'whatever'])
+        names = [n for n in names if n not in [k for k, _ in by_sec.get(sec, [])]] or ['another_c18']
+        others = [s for s in by_sec if s != sec]
+        variants = [
+            (f'[{sec}]\n{names[0]} = 1\n', _term0('forward'), [names[0]]),
+            (f'[{sec}]\n' + ''.join(f'{n} = True\n' for n in names), _term0('gradient'), names),
+        ]
+        txt = ''
+        for s2 in others:
+            ks = by_sec[s2][:2]
+            txt += f'[{s2}]\n' + ''.join(f'{k} = {gen_text(rng0, ty)}\n' for k, ty in ks)
+        variants.append((txt + f'[{sec}]\n{names[-1]} = 3.5\n', _term0('misfit'), [names[-1]]))
+        variants.append((f'[{sec}]\n{names[0]} = x\n',
+                         _term0('forward', nproc=2, layered=True, dry_run=True, path=base,
+                                survey='s.h5', model='m.npz', output='o.json'), [names[0]]))
+        for text, term, ns in variants:
+            out.append(dict(kind='lone_unknown', defect=[sec, ns], text=text, term=term, extra=False))
+    return out
 
 
 # ------------------------------------------------------- canonical values
@@ -432,9 +497,10 @@ def parse_correspondence(ctx, n, dis, hist, samples):
     base = tempfile.mkdtemp(prefix='c18p_')
     cwd = os.getcwd()
     cases, texts = [], []
+    lone = lone_unknown_cases(T, base)
     try:
         for i in range(n):
-            c = gen_parse_case(rng, T, base)
+            c = lone[i] if i < len(lone) else gen_parse_case(rng, T, base)
             try:
                 c['secs'] = read_cfg(c['text'])
             except configparser.Error:
@@ -443,6 +509,17 @@ def parse_correspondence(ctx, n, dis, hist, samples):
                 continue
             c['impl'] = impl_parse(c, os.path.join(base, 'emg3d.cfg'))
             cases.append(c)
+            if c['kind'] == 'lone_unknown':
+                # independent of the model: the property text requires the rejection
+                im = c['impl']
+                if not (im.get('err') == 'TypeError' and im.get('what') == c['defect'][0]):
+                    dis.append({'what': f"unknown option(s) {c['defect'][1]} as the ONLY keys of "
+                                        f"[{c['defect'][0]}] are not rejected by parse_config_file",
+                                'signature': f"C18: unknown key in [{c['defect'][0]}] is not rejected",
+                                'case': {'kind': c['kind'], 'config_text': c['text'],
+                                         'term': c['term']},
+                                'impl': _brief({k: v for k, v in im.items() if k != 'term_keys'}),
+                                'required': f"TypeError: Unexpected parameter in [{c['defect'][0]}]"})
         per = 40
         for j in range(0, len(cases), per):
             body = [COQ_HEADER, f"Definition ap := {coq_abspath(cwd)}."]
@@ -1231,17 +1308,36 @@ def _scen_precedence(e, name):
 PRECEDENCE = ['path', 'survey', 'model', 'output', 'layered', 'nproc', 'function']
 
 
-def _scen_unknown(e, sec):
+DOC_KEY_TEXT = {'files': '', 'simulation': 'name = c18\n', 'noise_opts': 'add_noise = False\n',
+                'layered': 'method = prism\n', 'solver_opts': 'maxit = 1\n',
+                'data': 'remove_empty = False\n', 'gridding_opts': 'verb = 0\n'}
+
+
+def _scen_unknown(e, sec, variant='lone'):
+    """A real run whose [sec] holds an unknown / mistyped option: 'lone' = the
+    unknown option is the ONLY key of the section ([files]: besides survey and
+    model), 'mixed' = next to a documented option of the same section.  Must
+    raise TypeError before anything is computed."""
+    name = UNKNOWN_NAMES.get(sec, ['another_c18'])[0]
     text = ('[files]\nsurvey = survey.h5\nmodel = model.h5\n'
-            + ('' if sec == 'files' else f'[{sec}]\n') + 'another_c18 = 1\n')
+            + ('' if sec == 'files' else f'[{sec}]\n')
+            + (DOC_KEY_TEXT.get(sec, '') if variant == 'mixed' else '') + f'{name} = 1\n')
     args = ['--path', e.dir, '-f', '-d']
     a = e.cli(text, args)
     e.n += 1
     if 'err' in a and a['err'] in ('TypeError',):
         return None
-    return {'signature': f"C18: unknown key in [{sec}] is not rejected", 'scenario': 'unknown:' + sec,
+    return {'signature': f"C18: unknown key in [{sec}] is not rejected",
+            'scenario': 'unknown:' + sec + ('' if variant == 'lone' else ':' + variant),
             'config_text': text, 'cli_args': args, 'observed': 'CLI ' + str(_outcome(a)),
-            'required': 'unknown options are rejected with an error'}
+            'required': f'unknown options are rejected with an error (TypeError: Unexpected '
+                        f'parameter in [{sec}]: [{name!r}])'}
+
+
+def _sections(T):
+    return ['files'] + (list(T['parser']['section_order']) if T is not None else
+                        ['simulation', 'noise_opts', 'layered', 'solver_opts', 'data',
+                         'gridding_opts'])
 
 
 def _scen_mode(e, name):
@@ -1312,6 +1408,101 @@ def _scen_mode(e, name):
 
 
 MODES = ['save', 'load', 'clean', 'clean_gopts', 'cache']
+
+
+# ------------------------- file format x options that look at loaded values
+# A survey / model read from .h5, .npz or .json holds the same numbers in
+# different containers (e.g. npz: frequencies are 0-d arrays).  Every option
+# whose handling looks at the loaded values (gridding per frequency / source,
+# [data] selections by name, layered mode) is therefore run for EVERY file
+# format: (a) CLI on the <fmt> files == API on the same <fmt> files, and
+# (b) == API on the h5 files (the result must not depend on the format).
+# Enumerated deterministically (no random choice of format or value).
+FORMATS = ['h5', 'npz', 'json']
+FORMAT_OPTS = (
+    [('gridding=' + g, {('simulation', 'gridding'): g})
+     for g in ('single', 'same', 'frequency', 'source', 'both')]
+    + [('sources', {('data', 'sources'): ['TxED-2']}),
+       ('receivers', {('data', 'receivers'): ['RxEP-3', 'RxEP-1']}),
+       ('frequencies', {('data', 'frequencies'): ['f-2']}),
+       ('remove_empty', {('data', 'remove_empty'): True, ('data', 'sources'): ['TxED-2', 'TxED-1']}),
+       ('frequencies+gridding=frequency', {('data', 'frequencies'): ['f-2', 'f-1'],
+                                           ('simulation', 'gridding'): 'frequency'}),
+       ('sources+gridding=both', {('data', 'sources'): ['TxED-2'],
+                                  ('simulation', 'gridding'): 'both'}),
+       ('layered', {('simulation', 'layered'): True}),
+       ('layered+method=source', {('simulation', 'layered'): True, ('layered', 'method'): 'source',
+                                  ('data', 'receivers'): ['RxEP-2', 'RxEP-3']})])
+_FNS = ['forward', 'misfit', 'gradient']
+
+
+def format_cases(thorough=False):
+    """(option name, function) pairs; the function rotates deterministically so
+    that forward, misfit and gradient are all run on every format (thorough:
+    the full product)."""
+    if thorough:
+        return [(nm, fn) for nm, _ in FORMAT_OPTS for fn in _FNS]
+    return [(nm, _FNS[i % 3]) for i, (nm, _) in enumerate(FORMAT_OPTS)]
+
+
+def _scen_format(e, name, fn, fmt, cache=None):
+    """CLI run on the <fmt> survey/model files with an option that looks at the
+    loaded values, against the API on the same files and on the h5 files.
+    None = holds, else a hit."""
+    extra = dict(FORMAT_OPTS)[name]
+    opts = {**BASE_FAST, **extra}
+    spec = {'function': fn, 'opts': opts, 'format': fmt}
+    text, args = e.spec_cli(spec)
+    a = e.cli(text, args, out='emg3d_out.' + fmt)
+    b = e.api(spec)
+    key = (name, fn)
+    if cache is not None and key in cache:
+        c = cache[key]
+    else:
+        c = b if fmt == 'h5' else e.api({**spec, 'format': 'h5'})
+        if cache is not None:
+            cache[key] = c
+    e.n += 1
+    ok_ab, why_ab = e.same(a, b)
+    ok_bc, why_bc = e.same(b, c)
+    ok_ac, why_ac = e.same(a, c)
+    # the same error on every side is agreement only if it is not an artefact of the container
+    tag = 'format:' + ('ok' if ok_ab and ok_bc and ok_ac else 'differ')
+    e.stats[tag] = e.stats.get(tag, 0) + 1
+    if ok_ab and ok_bc and ok_ac:
+        return None
+    np = e.np
+    if not ok_ab:
+        why = f'CLI on {fmt} files != API on the same {fmt} files: ' + why_ab + _detail(np, a, b)
+    elif not ok_bc:
+        why = f'API on {fmt} files != API on h5 files: ' + why_bc + _detail(np, b, c)
+    else:
+        why = f'CLI on {fmt} files != API on h5 files: ' + why_ac + _detail(np, a, c)
+    osum = ', '.join(f'[{s}] {k} = {render_value(v)}' for (s, k), v in extra.items())
+    return {'signature': f"C18: survey/model files in {fmt} format with {osum}: "
+                         f"{'CLI != API' if not ok_ab else 'result depends on the file format'}",
+            'scenario': f'format:{name}:{fn}:{fmt}', 'config_text': text, 'cli_args': args,
+            'files': {'survey': 'survey.' + fmt, 'model': 'model.' + fmt},
+            'observed': why, 'cli': _outcome(a), 'api_same_files': _outcome(b),
+            'api_h5_files': _outcome(c),
+            'required': 'the CLI run writes the same data/misfit/gradient as the equivalent API calls '
+                        'on the same survey and model files, whatever the format of these files '
+                        '(h5, npz, json hold the same survey and model)'}
+
+
+def run_formats(e, cases, sink, hist=None):
+    """Full product cases x FORMATS; sink(hit) once per signature."""
+    cache, seen, n = {}, set(), 0
+    for (nm, fn) in cases:
+        for fmt in FORMATS:
+            h = _scen_format(e, nm, fn, fmt, cache)
+            n += 1
+            if hist is not None:
+                hist[f'e2e:format:{fmt}'] = hist.get(f'e2e:format:{fmt}', 0) + 1
+            if h and h['signature'] not in seen:
+                seen.add(h['signature'])
+                sink(h)
+    return n
 
 
 # --------------------------------------- [data] selections as written
@@ -1611,6 +1802,17 @@ def e2e_sample(ctx, dis, hist, samples):
             if h:
                 dis.append({'what': 'end-to-end precedence: ' + h['observed'], 'case': h,
                             'signature': h['signature']})
+        for sec in _sections(T):
+            for variant in ('lone', 'mixed'):
+                h = _scen_unknown(e, sec, variant)
+                hist['e2e:unknown:' + variant] = hist.get('e2e:unknown:' + variant, 0) + 1
+                if h:
+                    dis.append({'what': f'end-to-end unknown option ({variant}): ' + h['observed'],
+                                'case': h, 'signature': h['signature']})
+        nf = run_formats(e, format_cases(False),
+                         lambda h: dis.append({'what': 'end-to-end file format: ' + h['observed'],
+                                               'case': h, 'signature': h['signature']}), hist)
+        hist['e2e:format'] = nf
         for nm in MODES:
             h = _scen_mode(e, nm)
             hist['e2e:mode'] = hist.get('e2e:mode', 0) + 1
@@ -1633,7 +1835,10 @@ def e2e_sample(ctx, dis, hist, samples):
                                                 'case': h, 'signature': h['signature']}))
         n = e.n
         hist.update({'e2e:' + k: v for k, v in e.stats.items()})
-        samples.append({'e2e_keys': [list(p) for p in picks], 'precedence': PRECEDENCE, 'modes': MODES})
+        samples.append({'e2e_keys': [list(p) for p in picks], 'precedence': PRECEDENCE, 'modes': MODES,
+                        'unknown_only_sections': _sections(T),
+                        'format_product': {'formats': FORMATS,
+                                           'cases': [list(c) for c in format_cases(False)]}})
     finally:
         e.close()
     return n
@@ -1668,7 +1873,11 @@ def correspondence(ctx):
                 "error class/section.  run: emg3d.cli.run.simulation with Simulation/io/models "
                 "replaced by recorders vs Coq `run` (call sequence, constructor kwargs, noise kwargs, "
                 "select kwargs, saved keys, dry-run zeros).  e2e: real runs of emg3d.cli.main.main on "
-                "a 4^3 problem vs the equivalent API calls, outputs compared exactly.  distinct = "
+                "a 4^3 problem vs the equivalent API calls, outputs compared exactly; deterministic "
+                "products: (every section) x (unknown option alone / next to a documented one) must "
+                "raise TypeError, and (survey+model file format h5/npz/json) x (every [simulation] "
+                "gridding value, [data] selections, layered) with CLI == API on the same files == API "
+                "on the h5 files.  distinct = "
                 "distinct (configuration, terminal) pairs / call traces; non-trivial = not the empty "
                 "configuration with default terminal",
         'samples': samples[:6],
@@ -1703,12 +1912,14 @@ def search(ctx, broken):
             h = _scen_precedence(e, nm)
             if h:
                 hits.append(h)
-        for sec in ['files'] + (T['parser']['section_order'] if T is not None else
-                                ['simulation', 'noise_opts', 'layered', 'solver_opts', 'data',
-                                 'gridding_opts']):
-            h = _scen_unknown(e, sec)
-            if h:
-                hits.append(h)
+        for sec in _sections(T):
+            for variant in ('lone', 'mixed'):
+                h = _scen_unknown(e, sec, variant)
+                if h and not any(x['signature'] == h['signature'] for x in hits):
+                    hits.append(h)
+        # 2a. file format x options that look at the loaded values (thorough: x every function)
+        nfm = run_formats(e, format_cases(ctx.thorough), hits.append)
+        ctx.notes.append(f'searcher: {nfm} file-format runs (options x h5/npz/json)')
         for nm in MODES:
             h = _scen_mode(e, nm)
             if h and 'harness_error' not in h:
@@ -1760,7 +1971,11 @@ def replay(ctx, payload):
         if kind == 'precedence':
             return _scen_precedence(e, name) is None
         if kind == 'unknown':
-            return _scen_unknown(e, name) is None
+            sec, _, variant = name.partition(':')
+            return _scen_unknown(e, sec, variant or 'lone') is None
+        if kind == 'format':
+            nm, fn, fmt = name.rsplit(':', 2)
+            return _scen_format(e, nm, fn, fmt) is None
         if kind == 'mode':
             return _scen_mode(e, name) is None
         if kind == 'data':
